@@ -96,6 +96,8 @@ pub struct ConcLab<C: Ciphersuite> {
     pub checks: u64,
     labels: Vec<String>,
     lin: HashMap<String, String>,
+    /// independent hash reference for this suite (set by the runner for the RFC suites)
+    pub ref_hash: Option<fn(u8, &[u8]) -> Option<Vec<u8>>>,
     _c: PhantomData<C>,
 }
 
@@ -128,7 +130,7 @@ impl<C: Ciphersuite> ConcLab<C> {
                 m.insert(k.clone(), hex_to_limbs(v));
             }
         }
-        ConcLab { rng: ConcRng { k: 0, seed, model: m, log: vec![], bytes: vec![] }, failures: vec![], checks: 0, labels: vec![], lin, _c: PhantomData }
+        ConcLab { rng: ConcRng { k: 0, seed, model: m, log: vec![], bytes: vec![] }, failures: vec![], checks: 0, labels: vec![], lin, ref_hash: None, _c: PhantomData }
     }
     fn named(&mut self, name: &str) -> Scalar<C> {
         if let Some(l) = self.rng.model.get(name) {
@@ -166,6 +168,12 @@ impl<C: Ciphersuite> Lab<C> for ConcLab<C> {
     }
     fn adv_scalar(&mut self, name: &str) -> Scalar<C> {
         self.named(name)
+    }
+    fn ref_hash(&mut self, which: u8, input: &[u8], got: &[u8], what: &str) -> bool {
+        match self.ref_hash.and_then(|f| f(which, input)) {
+            Some(want) => self.rec(want == got, what),
+            None => true,
+        }
     }
     fn adv_scalar_among(&mut self, name: &str, candidates: &[Scalar<C>]) -> Scalar<C> {
         if let Some(k) = self.rng.model.get(&format!("among:{name}")) {
